@@ -15,6 +15,10 @@ the return of every propagate call); what is *reported* is the response document
     are compared with the real outputs (exact values; tolerance 1e-9 where gnpy does float arithmetic),
   * a direct stream drives ResultElement / jsontocsv on planning outcomes whose outcome fields were rewritten to every
     blocking reason and to inconsistent states (labels on a blocked request, missing labels, missing reverse path).
+  * an aggregation stream drives the real requests_aggregation / compare_reqs alone on request-like objects and real
+    Disjunction objects (twins, near-twins differing in one compared field, synchronisation groups of equal and of
+    different shapes, repeated ids) and compares requests and groups with the model; the aggregation clauses of the
+    property are evaluated on the real result (agg_oracle).
 A response whose exact mean lies within 1e-9 of a rounding tie is not judged (counted).
 """
 import copy
@@ -538,17 +542,31 @@ def gen_agg_case(rng):
         reqs.append(t)
     ids = [r['id'] for r in reqs]
     groups = []
-    for _ in range(rng.choice([0, 0, 1, 2, 3, 4])):
-        g = rng.sample(ids, min(len(ids), rng.choice([2, 2, 3])))
-        if rng.random() < 0.15:
-            g.append(g[0])                                   # an id repeated inside one group
-        groups.append(g)
-        if rng.random() < 0.5 and len(ids) > 2:
-            # a second group of the same shape for another request: [a, c] and [b, c]
-            other = rng.choice([i for i in ids if i not in g[:1]])
-            g2 = [other] + [x for x in g[1:] if x != other]
-            if len(set(g2)) >= 2:
-                groups.append(g2)
+    for _ in range(rng.choice([0, 0, 1, 1, 2, 3])):
+        style = rng.random()
+        if style < 0.55 and len(ids) >= 3:
+            # the same partners for several requests: [t1] + P, [t2] + P, ... (twins then sit in groups of one shape)
+            partners = rng.sample(ids, rng.choice([1, 1, 2]))
+            rest = [i for i in ids if i not in partners]
+            for t in rng.sample(rest, min(len(rest), rng.choice([1, 2, 2, 3]))):
+                groups.append([t] + partners if rng.random() < 0.8 else partners + [t])
+        else:
+            g = rng.sample(ids, min(len(ids), rng.choice([2, 2, 3])))
+            if rng.random() < 0.15:
+                g.append(g[0])                               # an id repeated inside one group
+            groups.append(g)
+    if rng.random() < 0.3 and len(ids) >= 4:
+        # two requests, each in several groups of pairwise equal shape, the groups of one request adjacent
+        a, b = rng.sample(ids, 2)
+        if rng.random() < 0.7:
+            for f in KEY_FIELDS:                             # make them twins
+                reqs[ids.index(b)][f] = copy.deepcopy(reqs[ids.index(a)][f])
+        partners = rng.sample([i for i in ids if i not in (a, b)], 2)
+        for x in (a, b):
+            for pnr in partners:
+                groups.append([x, pnr])
+    if rng.random() < 0.3:
+        rng.shuffle(groups)
     return {'kind': 'agg', 'requests': reqs, 'groups': groups}
 
 
